@@ -174,4 +174,8 @@ def run_check(prop, tier, fn, level="other"):
         fn(ctx)
     except Inconclusive as e:
         ctx.inconclusive.append(str(e))
+    except Exception as e:  # an idiom the rule cannot read must never look like a verdict
+        import traceback
+        tb = traceback.format_exc().strip().splitlines()
+        ctx.inconclusive.append("internal error while reading the code (%s: %s) at %s" % (type(e).__name__, e, tb[-3].strip() if len(tb) >= 3 else ""))
     return ctx.finish()
